@@ -8,9 +8,25 @@ type tagCycleValue struct {
 type tagCycleNode struct {
 	position *Token
 	args     []IEvaluator
-	idx      int
 	asName   string
 	silent   bool
+}
+
+// tagCycleState is the per-execution position of a cycle tag.
+type tagCycleState struct {
+	idx int
+}
+
+func (node *tagCycleNode) state(ctx *ExecutionContext) *tagCycleState {
+	if ctx.nodeState == nil {
+		ctx.nodeState = make(map[any]any)
+	}
+	if st, ok := ctx.nodeState[node].(*tagCycleState); ok {
+		return st
+	}
+	st := &tagCycleState{}
+	ctx.nodeState[node] = st
+	return st
 }
 
 func (cv *tagCycleValue) String() string {
@@ -18,8 +34,9 @@ func (cv *tagCycleValue) String() string {
 }
 
 func (node *tagCycleNode) Execute(ctx *ExecutionContext, writer TemplateWriter) *Error {
-	item := node.args[node.idx%len(node.args)]
-	node.idx++
+	st := node.state(ctx)
+	item := node.args[st.idx%len(node.args)]
+	st.idx++
 
 	val, err := item.Evaluate(ctx)
 	if err != nil {
@@ -31,8 +48,9 @@ func (node *tagCycleNode) Execute(ctx *ExecutionContext, writer TemplateWriter) 
 		// {% cycle cycleitem %}
 
 		// Update the cycle value with next value
-		item := t.node.args[t.node.idx%len(t.node.args)]
-		t.node.idx++
+		tst := t.node.state(ctx)
+		item := t.node.args[tst.idx%len(t.node.args)]
+		tst.idx++
 
 		val, err := item.Evaluate(ctx)
 		if err != nil {
